@@ -5,6 +5,7 @@ package str
 import (
 	"bytes"
 	"fmt"
+	"math"
 	"strconv"
 	"strings"
 	"unicode"
@@ -132,7 +133,7 @@ func repeat(s string, n int) (string, error) {
 	if n < 0 {
 		return "", errs.BadValue{What: "n", Valid: "non-negative number", Actual: vals.ToString(n)}
 	}
-	if len(s)*n < 0 {
+	if n > 0 && len(s) > math.MaxInt/n {
 		return "", errs.BadValue{What: "n", Valid: "small enough not to overflow result", Actual: vals.ToString(n)}
 	}
 	return strings.Repeat(s, n), nil
